@@ -202,8 +202,7 @@ impl Suite for Compaction {
         }
         let tag = if tags.is_empty() { "-".to_string() } else { tags.join("+") };
         // the model takes parts uncompressed
-        let model_applies = compressed.is_empty()
-            && (cfg!(debug_assertions) || !(tag.contains("min-is-i64-MIN") || tag.contains("increasing-step-exceeds")));
+        let model_applies = compressed.is_empty();
 
         let rebuilt = match rebuild(&parts) {
             Err((msg, file)) => {
